@@ -1,6 +1,7 @@
 import Skc.Lemmas.CapaSpec
 import Skc.Lemmas.PenH
 import Skc.Lemmas.CapaGlue
+import Skc.Lemmas.Tables
 
 /-! # C03 — CAPA / MVCAPA anomalies maximise the total penalised saving
 
@@ -282,6 +283,34 @@ theorem capa_prefix_wrt_specification (pick : (Nat → α) → List Nat → Nat)
         (penalise_best_of_pos eps _ ca cb (hne_c a.1 a.2) (hcnn a.1 a.2) (okc' a.1 a.2) hpos)
   · intro l' hl'
     exact le_trans (anomVal_mono PSs PS PPs PP hle1 hle2 l') (hub l' hl')
+
+/-! ### composed down to the data: CAPA / MVCAPA with the squared-error saving -/
+
+/-- **C03, squared-error saving, from the rows.**  For a series with `p ≥ 1` columns and the default
+    `L2Saving` (per-column saving `(Σ x)² / len`, `l2Savings`), every hypothesis of
+    `capa_optimal_wrt_specification` about the savings is a theorem — lengths, non-negativity
+    (`l2Savings_nonneg`), column-wise sub-additivity under splitting (`l2Savings_subAdd`) — so for all
+    data, all `PenOK` penalties and every policy of the family the reported anomalies are an admissible
+    set whose total specification saving is the final score, and no admissible set saves more. -/
+theorem capa_l2_optimal_wrt_specification (pick : (Nat → ℝ) → List Nat → Nat) (pr : ℝ → ℝ → Bool)
+    (hpick : SoundPickMax pick) (hpr : SoundPruneC pr) (eps : ℝ) (X : ℕ → ℕ → ℝ)
+    (ca pa : ℝ) (cb pb : List ℝ) (p m M delay n : Nat)
+    (hm : 2 ≤ m) (hmM : m ≤ M) (hd : m ≤ delay + 1) (hp : 0 < p)
+    (okc : PenOK eps p ca cb) (okp : PenOK eps p pa pb)
+    (PSs : Nat → Nat → ℝ) (PPs : Nat → ℝ)
+    (hPSs : ∀ s e, IsBestSel (l2Savings X p s e) ca cb (PSs s e))
+    (hPPs : ∀ t, IsBestSel (l2Savings X p t (t + 1)) pa pb (PPs t)) :
+    let PS := fun s e => penalise eps (l2Savings X p s e) ca cb
+    let PP := fun t => penalise eps (l2Savings X p t (t + 1)) pa pb
+    let r := runCapaG pick pr PS PP (ca + sumL cb) m M delay n
+    ValidAnoms m M 0 r.2 n ∧ anomVal PSs PPs r.2 = r.1 n ∧
+      ∀ l, ValidAnoms m M 0 l n → anomVal PSs PPs l ≤ r.1 n :=
+  capa_optimal_wrt_specification pick pr hpick hpr eps (fun s e => l2Savings X p s e)
+    (fun t => l2Savings X p t (t + 1)) ca pa cb pb p m M delay n hm hmM hd hp
+    (fun s e => l2Savings_length X p s e) (fun t => l2Savings_length X p t (t + 1))
+    (fun s e => l2Savings_nonneg X p s e) (fun t => l2Savings_nonneg X p t (t + 1))
+    (fun s e0 T h1 h2 _ _ => l2Savings_subAdd X p s e0 T (by omega) (by omega))
+    okc okp PSs PPs hPSs hPPs
 
 /-! ### Non-vacuity and the negative result for the pinned code -/
 
